@@ -62,7 +62,21 @@ fn all_init_state(sim: &lc3_ensemble::sim::Simulator) {
 pub fn run(o: Opts) {
     let cfg = Cfg { strict: o.strict, real_traps: o.real_traps, ignore_priv: o.ignore_priv, debug_frames: o.debug_frames,
                     alloca: o.alloca, interrupts: o.class == CLASS_IRQ || o.class == CLASS_ANY };
-    let (mut sim, script) = any_sim(&cfg);
+    let (mut sim, mut script) = any_sim(&cfg);
+    if o.mode != 0 {
+        // C13 drivers: the loop condition of run_while must be decidable by constant propagation after
+        // the first executed step, otherwise symbolic execution pays for a second full step. Bound:
+        // no interrupt pending at the first boundary (an interrupt entry does not count as an executed
+        // instruction, so run_with_limit(1) legitimately runs on) and a concrete instruction counter.
+        script.poll = PollAns::None;
+        unsafe { SH.script.poll = PollAns::None; }
+        sim.instructions_run = 7;
+        if o.mode == 5 {
+            // step_out at top level: the depth is a constant so that the guarded run_while call is
+            // pruned by constant propagation when the implementation is right
+            sim.frame_stack = lc3_ensemble::sim::frame::FrameStack::verif_new_empty(false, 0);
+        }
+    }
     shape_class(&mut sim, &script, o.class);
     if o.user {
         nd::assume(sim.psr().get() >> 15 == 1);
@@ -73,7 +87,8 @@ pub fn run(o: Opts) {
         let b = sim.mmap_internal(MCR_ADDR, InternalRegister::MCR);
         assert!(a.is_ok() && b.is_ok(), "default internal-register mappings refused");
         std::mem::forget((a, b));
-        let m: bool = nd::any();
+        // run-style drivers set the MCR themselves before the first step
+        let m: bool = if o.mode != 0 { true } else { nd::any() };
         sim.mcr().store(m, std::sync::atomic::Ordering::Relaxed);
         // Stack pushes of an OS entry landing ON the mapped registers (supervisor stack pointer at the
         // very top of the I/O page) rewrite the PSR in the middle of the entry sequence: outside the claim.
@@ -106,7 +121,9 @@ pub fn run(o: Opts) {
     }
     let pre_irun = sim.instructions_run;
     let pre_depth = sim.frame_stack.len();
-    let bp_pc: u16 = nd::any();
+    // a HashSet insert with a symbolic key does not finish (DESIGN.md section 9): the breakpoint address is
+    // a constant, the machine's PC stays symbolic
+    let bp_pc: u16 = if o.mode == 4 { 0x3005 } else { nd::any() };
     // run-style drivers (C13): the harness covers executions in which the documented stop condition
     // holds after the first step (bound: one executed step per call)
     let r = match o.mode {
@@ -143,9 +160,15 @@ pub fn run(o: Opts) {
     if o.mode != 0 {
         use std::sync::atomic::Ordering;
         assert!(!sim.mcr().load(Ordering::Relaxed), "MCR left set after a run-style call returned");
-        assert!(sim.hit_halt() == (got == R_OK && e.halted), "hit_halt() differs from 'a HALT was executed'");
+        // the machine counts as halted when a HALT was executed or the executed instruction cleared the
+        // MCR through its mapped register (the OS's real HALT routine does exactly that)
+        let mcr_off = o.iregs && !e.mcr;
+        assert!(sim.hit_halt() == (got == R_OK && (e.halted || mcr_off)), "hit_halt() differs from 'a HALT was executed or the MCR was cleared'");
+        crate::nd_cover!(got == R_OK && !e.halted && mcr_off, "[mcr] the executed instruction cleared the MCR");
         let want_bp = o.mode == 4 && got == R_OK && !e.halted && e.pc == bp_pc;
         assert!(sim.hit_breakpoint() == want_bp, "hit_breakpoint() differs from 'a breakpoint matched after the executed instruction'");
+        crate::nd_cover!(want_bp, "[bp] stopped at the breakpoint");
+        crate::nd_cover!(o.mode == 4 && got == R_OK && !e.halted && e.pc != bp_pc, "[bp] breakpoint not matched");
         crate::nd_cover!(e.halted, "[run] halted");
         crate::nd_cover!(got == R_OK && !e.halted, "[run] stopped by its condition");
     }
@@ -174,7 +197,8 @@ pub fn run(o: Opts) {
         crate::nd_cover!(e.neff > 0, "[c12] store agrees");
     }
     if o.iregs {
-        assert!(sim.mcr().load(std::sync::atomic::Ordering::Relaxed) == e.mcr, "MCR differs from the model");
+        // (after a run-style call the MCR is always cleared: asserted with the run-style checks)
+        assert!(o.mode != 0 || sim.mcr().load(std::sync::atomic::Ordering::Relaxed) == e.mcr, "MCR differs from the model");
         crate::nd_cover!(e.psr != pre_psr_for_cover && e.neff > 0, "[iregs] PSR changed");
     }
     if o.a_depth {
